@@ -76,7 +76,7 @@ func FuzzVerifC08(f *testing.F) {
 		e := &vfC08Entries[int(entry)%len(vfC08Entries)]
 		c := vfCaseC08{Entry: e.Name, Input: data, Flags: flags, Mut: "fuzz"}
 		if e.Part == "frame" {
-			c.Chunk = []int{0, 1, 2, 3, 4, 5, -1, -2}[chunk%8]
+			c.Chunk = []int{0, 1, 2, 3, 4, 5, -1, -2, -3}[chunk%9]
 		}
 		vfFuzzExec(t, vfPropC08, "raw", c)
 	})
